@@ -59,7 +59,9 @@ impl FitToType for f32 {
     fn fit_to_type(self) -> Variant {
         let diff = self - self.round();
         let has_fraction = diff != 0.0;
-        if has_fraction {
+        // a whole number beyond the range of LONG stays what it is
+        // (converting it to an integer type would clamp it)
+        if has_fraction || !(MIN_LONG as f32..=MAX_LONG as f32).contains(&self) {
             Variant::VSingle(self)
         } else {
             (self.round() as i64).fit_to_type()
@@ -71,7 +73,7 @@ impl FitToType for f64 {
     fn fit_to_type(self) -> Variant {
         let diff = self - self.round();
         let has_fraction = diff != 0.0;
-        if has_fraction {
+        if has_fraction || !(MIN_LONG as f64..=MAX_LONG as f64).contains(&self) {
             Variant::VDouble(self)
         } else {
             (self.round() as i64).fit_to_type()
